@@ -3,6 +3,7 @@
      V <tcode> <rval>          all routes        C <tcode> <rval>   core routes only
      G <tcodeW> <tcodeT> <rval>   request at type W for a global of type T holding the value
      D <tcode> <rval>          the value is stored in a global (extern module)
+     R <tcode> <rval>          the global is requested at its own type after another script was loaded
    <tcode>: i64 | ... | (option T) | (result E T) | (vec T) | (map T) | (tuple T..) |
             (struct xNAME kind (xFIELD T)..) | (enum xNAME (xVARIANT kind (xFIELD T)..)..)
    <rval>:  i<dec> | f<hex> | b0 | b1 | s<hex> | u | n | (S v) | (O v) | (E v) | (L v..) |
@@ -209,6 +210,10 @@ let handle line =
       let _ = tcode_of (parse_sx tc) in
       let _ = rval_of (parse_sx v) in
       "define=OK"
+  | ["R"; tc; v] ->
+      let t = tcode_of (parse_sx tc) in
+      let v = rval_of (parse_sx v) in
+      "reget=" ^ bool_s (sig_ok t (gluon_ty t)) ^ ":" ^ orval_s (get t (push t v))
   | ["G"; tw; tt; v] ->
       let w = tcode_of (parse_sx tw) in
       let t = tcode_of (parse_sx tt) in
